@@ -19,7 +19,7 @@ M = E.CryptographicUsageMask
 
 def plan(tier):
     return {
-        'level': 'exploration', 'shards': 16, 'budget_s': 80 if tier == 'quick' else 800,
+        'level': 'exploration', 'shards': 16, 'budget_s': 120 if tier == 'quick' else 800,
         'rule': 'request histories through a real KmipSession and through ProxyKmipClient with 32-byte high-entropy '
                 'canaries as key material of all seven object types, secret data, the password of the request credential, '
                 'plaintext, IVs, MAC data and derivation data; successes, every refusal path, undecodable frames (grammar-'
@@ -34,7 +34,7 @@ def plan(tier):
 
 
 def cases(tier, seed):
-    n = 32 if tier == 'quick' else 400
+    n = 96 if tier == 'quick' else 640
     return [{'run': i} for i in range(n)]
 
 
